@@ -65,6 +65,7 @@ type engine struct {
 	res     *Result
 	nodeIf  *types.Interface
 	errIf   *types.Interface
+	fileIf  *types.Interface
 }
 
 type fieldKey struct {
@@ -148,6 +149,9 @@ func Analyze(p *load.Prog) *Result {
 		}
 		if o := pk.Types.Scope().Lookup("Error"); o != nil {
 			e.errIf, _ = o.Type().Underlying().(*types.Interface)
+		}
+		if o := pk.Types.Scope().Lookup("File"); o != nil {
+			e.fileIf, _ = o.Type().Underlying().(*types.Interface)
 		}
 	}
 	e.unifyInterfaces()
